@@ -1115,6 +1115,15 @@ func (o *ovsdbClient) Echo(ctx context.Context) error {
 func (o *ovsdbClient) watchForLeaderChange() error {
 	updates := make(chan model.Model)
 	o.databases[serverDB].cache.AddEventHandler(&cache.EventHandlerFuncs{
+		// after a reconnect the state of the endpoint arrives as the
+		// initial contents of the re-established monitor, i.e. as an add:
+		// leadership may have been lost between the leader check made
+		// while connecting and the monitor being set up
+		AddFunc: func(table string, new model.Model) {
+			if table == "Database" {
+				updates <- new
+			}
+		},
 		UpdateFunc: func(table string, _, new model.Model) {
 			if table == "Database" {
 				updates <- new
